@@ -426,7 +426,9 @@ LoggedNodes == Leaves \cup {i \in 1..N : K(i) = "E2S"}
 \* which tops can take which call
 RECURSIVE CanDone(_), CanProgress(_)
 CanDone(i) == CASE K(i) \in {"Decor", "Tagger", "E2S"} -> FALSE [] OTHER -> TRUE
-CanProgress(i) == CASE K(i) = "E2O" -> TRUE [] K(i) = "TFR" -> TRUE [] K(i) = "Ext" -> TRUE
+\* ExtendedToOriginalDecorator probes one level only; testtools.TestResult itself has no progress()
+CanProgress(i) == CASE K(i) = "E2O" -> (IF Has(K(Kid(i)), "progress") THEN CanProgress(Kid(i)) ELSE TRUE)
+                    [] K(i) = "TFR" -> TRUE [] K(i) = "Ext" -> TRUE
                     [] K(i) \in {"Decor", "Tagger"} -> CanProgress(Kid(i)) [] OTHER -> FALSE
 CanSetFFKind(k) == k \in {"E2O", "Multi", "E2S"} \cup TTLike
 CanSetFF(i) == CanSetFFKind(K(i))
